@@ -60,11 +60,16 @@ class ByNameEnumMappingGenerator(BaseEnumMappingGenerator):
     def _generate_mapping(self, cases: Iterable[EnumT]) -> Mapping[EnumT, str]:
         result = {}
 
+        # members of mixed-in enums (e.g. ``str``) are equal to plain values,
+        # so keys must be distinguished by their kind, not only by equality
+        by_member = {id(key): value for key, value in self._map.items() if isinstance(key, Enum)}
+        by_name = {key: value for key, value in self._map.items() if not isinstance(key, Enum)}
+
         for case in cases:
-            if case in self._map:
-                mapped = self._map[case]
-            elif case.name in self._map:
-                mapped = self._map[case.name]
+            if id(case) in by_member:
+                mapped = by_member[id(case)]
+            elif case.name in by_name:
+                mapped = by_name[case.name]
             elif self._name_style:
                 mapped = convert_snake_style(case.name, self._name_style)
             else:
